@@ -116,6 +116,22 @@ example :
       | .panic => true
       | _ => false) = true := by decide
 
+/-- A concrete non-trivial state meets the hypothesis `Nameable stdTable` of `serialize_total`
+(an alias and a primitive in a group, a macro and a saved primitive on an active character, a
+saved register). -/
+example : Nameable stdTable
+    { vars := [(⟨.count, 1⟩, 4)], save := [[(⟨.count, 1⟩, .delete)]],
+      cmds := { bc := [(2, .alias ⟨.count, 1⟩), (3, .prim 2)], groups := [[(2, .delete)]] },
+      active := { bc := [(0, .mac 5)], groups := [[(0, .revert (.prim 0))]] },
+      font := 0, fontSave := [none], scopeBit := .loc } := by
+  refine ⟨⟨?_, ?_⟩, ⟨?_, ?_⟩, ?_⟩
+  · intro p hp; simp at hp; rcases hp with rfl | rfl <;> simp [nameableCmd, stdTable, stdNameOfVar]
+  · intro g hg p hp v hv; simp at hg; subst hg; simp at hp; subst hp; simp at hv
+  · intro p hp; simp at hp; subst hp; simp [nameableCmd]
+  · intro g hg p hp v hv; simp at hg; subst hg; simp at hp; subst hp; simp at hv; subst hv
+    simp [nameableCmd, stdTable]
+  · intro g hg e he; simp at hg; subst hg; simp at he; subst he; simp [stdTable, stdNameOfVar]
+
 /-! ## The defect C08-a: before the repair the property is false -/
 
 /-- Witness of DESIGN 5.9 (`\catcode`\~=13 \def~{A}` | `~`): with the code before C08-a the
